@@ -8,6 +8,8 @@ tie          : (1) Convert.gen vs the implementation's Core (as C11); (2) the mo
 direct oracle: the reference semantics of Mamba, MEval.run_mamba, on the implementation's typed AST vs
                python3 executing the emitted text - printed lines and class of an uncaught exception, for
                both annotate settings
+classes      : both evaluators interpret classes (objects in a heap, constructors with parent calls, fields,
+               methods, user exception classes); gen01 generates them in about 40% of the programs
 """
 import json, os, re, subprocess, sys
 from concurrent.futures import ThreadPoolExecutor
@@ -28,10 +30,21 @@ def run_python(texts):
 
     def one(chunk):
         inp = "\n".join(json.dumps({"id": k, "text": t}) for k, t in chunk) + "\n"
-        p = subprocess.run([sys.executable, RUNNER], input=inp, stdout=subprocess.PIPE, stderr=subprocess.PIPE,
-                           text=True, timeout=900)
+        try:
+            p = subprocess.run([sys.executable, RUNNER], input=inp, stdout=subprocess.PIPE, stderr=subprocess.PIPE,
+                               text=True, timeout=900 if len(chunk) > 1 else 120)
+            stdout = p.stdout
+        except subprocess.TimeoutExpired:
+            # one program stalls the interpreter inside a single step (e.g. arithmetic on astronomically long
+            # integers): run the programs of the chunk one by one and mark the offender; it is not compared
+            if len(chunk) == 1:
+                return {chunk[0][0]: ([], "!timeout")}
+            out = {}
+            for item in chunk:
+                out.update(one([item]))
+            return out
         out = {}
-        for ln in p.stdout.splitlines():
+        for ln in stdout.splitlines():
             try:
                 d = json.loads(ln)
                 out[d["id"]] = (d["out"], d["exc"])
@@ -78,6 +91,54 @@ ADVERSARIAL = [
     ("def a := 3\nprint((-2) ^ 2)\nprint(-2 ^ 2)\nprint((-a) * 2)\nprint(2 - (-a))\nprint((-2) mod 3, (-7) // 2)\n", "signed-operands"),
     ("def n: Int := -3\nprint(n)\nprint(n ^ 2)\ndef f(x: Int) -> Int => -x\nprint(f(4) + f(-1))\n", "signed-literals"),
     ("def t := True\ndef u := False\nprint(t and u, t or u, not t)\nprint(\"a\" + \"b\" = \"ab\")\n", "bool-ops"),
+    # classes: constructor arguments, parent with arguments, body field, field update, method chain through the parent
+    ("class Point(def x: Int, def y: Int)\n    def z: Int := 5\n\n    def sum(self) -> Int => self.x + self.y + self.z\n\n"
+     "    def move(self, d: Int) =>\n        self.x := self.x + d\n\n"
+     "class P3(def a: Int, def b: Int, def c: Int): Point(a, b)\n    def total(self) -> Int => self.sum() + self.c\n\n"
+     "def p := Point(1, 2)\nprint(p.sum())\np.move(3)\nprint(p.x)\ndef q := P3(1, 2, 3)\nprint(q.total())\nq.move(10)\nprint(q.x, q.y, q.c, q.z)\n",
+     "class-parent-arguments"),
+    # user exception classes: handled through the parent class, through Exception, and uncaught
+    ("class Base(def m: Str): Exception(m)\nclass Der(def n: Str): Base(n)\n"
+     "def f(x: Int) -> Int raise [Der] =>\n    if x > 0 then raise Der(\"neg\")\n    x\n"
+     "def a := f(1) handle\n    err: Base =>\n        print(err)\n        3\nprint(a)\n"
+     "def b := f(1) handle\n    err: Exception =>\n        print(\"exc\")\n        4\nprint(b)\nprint(f(0))\nprint(f(2))\n",
+     "class-exception-hierarchy"),
+    # an exception with a field next to the message; a constant message; a message that is not a string
+    ("class E(def code: Int, def msg: Str): Exception(msg)\ndef f() -> Int raise [E] => raise E(7, \"seven\")\n"
+     "def a := f() handle\n    err: E =>\n        print(err)\n        err.code\nprint(a)\n"
+     "class F(def code: Int): Exception(\"fixed\")\ndef g() -> Int raise [F] => raise F(3)\n"
+     "def b := g() handle\n    err: F =>\n        print(err)\n        err.code + 1\nprint(b)\n"
+     "class N(def v: Int): Exception(v)\ndef h() -> Int raise [N] => raise N(5)\n"
+     "def c := h() handle\n    err: N =>\n        print(err)\n        0\nprint(c)\n",
+     "class-exception-field-and-message"),
+    # two references to one object, an object passed to a function and returned from one, a nested field path
+    ("class Cnt(def n: Int)\n    def inc(self) => self.n += 1\n    def get(self) -> Int => self.n\n"
+     "class Box(def c: Cnt)\n    def peek(self) -> Int => self.c.n\n"
+     "def bump(c: Cnt) => c.inc()\ndef mk(k: Int) -> Cnt => Cnt(k)\n"
+     "def a := Cnt(0)\ndef b := a\nbump(a)\nb.inc()\nprint(a.get(), b.n)\n"
+     "def x := Box(mk(10))\nx.c.n := x.c.n * 2\nprint(x.peek(), x.c.get())\nx.c.inc()\nprint(x.peek())\n",
+     "class-aliasing-and-paths"),
+    # dynamic dispatch through self, an overriding method, fields of the body per object, several parents
+    ("class Animal(def name: Str)\n    def legs: Int := 4\n    def sound(self) -> Str => \"...\"\n"
+     "    def speak(self) => print(self.name + \" says \" + self.sound())\n"
+     "class Dog(def n: Str): Animal(n)\n    def sound(self) -> Str => \"woof\"\n"
+     "class Tag(def label: Str)\n    def show(self) => print(self.label)\n"
+     "class Pet(def n: Str, def l: Str): Dog(n), Tag(l)\n"
+     "def a := Animal(\"cat\")\ndef d := Dog(\"rex\")\na.speak()\nd.speak()\nd.legs := 3\nprint(a.legs, d.legs, d.name)\n"
+     "def p := Pet(\"bo\", \"t1\")\np.speak()\np.show()\nprint(p.legs)\n",
+     "class-dispatch-and-several-parents"),
+    # state changed before a raise inside a method stays changed; handled, then uncaught
+    ("class Oops(def msg: Str): Exception(msg)\nclass Acc(def total: Int)\n"
+     "    def add(self, n: Int) raise [Oops] =>\n        self.total := self.total + 1\n"
+     "        if n < 0 then raise Oops(\"negative\")\n        self.total := self.total + n\n"
+     "def a := Acc(0)\na.add(5)\na.add(0 - 1) handle\n    err: Oops => print(\"caught\", err)\na.add(7)\nprint(a.total)\n"
+     "a.add(0 - 3)\nprint(\"unreachable\")\n",
+     "class-raise-in-method"),
+    # an argument passed on to the parent is not a field under its own name (outside the reference semantics;
+    # the emitted constructor does not assign it: AttributeError)
+    ("class Point(def x: Int, def y: Int)\nclass P3(def a: Int, def b: Int): Point(a, b)\n    def geta(self) -> Int => self.a\n"
+     "def q := P3(1, 2)\nprint(q.x)\nprint(q.geta())\n",
+     "class-passed-on-argument-read"),
 ]
 
 
@@ -145,7 +206,7 @@ def run(tier, replay=None):
                 return name
         return "other"
 
-    n_cmp = n_agree = n_unsup = n_rej = 0
+    n_cmp = n_agree = n_unsup = n_rej = n_budget = 0
     twin_cmp = 0
     model_cmp = model_agree = 0
     ann_cmp = 0
@@ -162,6 +223,10 @@ def run(tier, replay=None):
             key = f"r{i}_{a}"
             if key in pyres:
                 out, exc = pyres[key]
+                if exc is not None and exc.startswith("!"):
+                    # the runner's own limits (step budget, recursion depth, stall), not behaviour of the program
+                    n_budget += 1
+                    continue
                 runs[a] = (py_status(exc), out)
             # validation of the model of Python against python3
             if key in pres and key in pyres:
@@ -220,17 +285,20 @@ def run(tier, replay=None):
     ck.cov.update({
         "evaluations": n_cmp, "distinct_nontrivial": n_agree,
         "rule": "generated executable programs (operators, ranges with step, if/match/while/for as statements and "
-                "values, functions with implicit/explicit return, raise/handle, tuples, lists, ?), adversarial "
+                "values, functions with implicit/explicit return, raise/handle, tuples, lists, ?; in about 40% of the "
+                "programs classes: constructor arguments, parents with arguments, body fields, methods reading and "
+                "updating fields, objects, user exception classes raised and handled through the hierarchy), adversarial "
                 "programs for the known classes, hand-written programs; both annotate settings; non-trivial = the "
                 "reference semantics is defined on the program and python3 agrees with it",
         "traces_validated_against_impl": model_agree, "python_model_compared": model_cmp,
         "annotate_pairs_compared": ann_cmp, "precedence_twins_compared": twin_cmp,
-        "outside_reference_semantics": n_unsup, "outside_reasons": status_count, "rejected_by_transpiler": n_rej,
+        "python_runner_limit_hit": n_budget, "outside_reference_semantics": n_unsup, "outside_reasons": status_count, "rejected_by_transpiler": n_rej,
         "constructs_in_agreeing_runs": tag_count, "model_status": conv,
         "samples": samples or [{"source": cases[0].src[:200]}],
         "trusted_base": [
             "Coq 8.16.1 kernel; no axioms",
-            "reference semantics of Mamba model/MEval.v (hand-written from docs/; the specification)",
+            "reference semantics of Mamba model/MEval.v (hand-written from docs/; the specification; for classes the "
+            "assumed rule: constructor arguments not passed on to a parent become fields)",
             "model of Python model/PyEval.v + model/PySem.v, compared with python3 on every emitted text",
             "hand model model/Convert.v of the desugaring, compared with the implementation's Core on every input",
             "python3 as executor of the emitted text (lib/vlib/pyrunner.py, step budget instead of wall clock)",
